@@ -30,6 +30,7 @@ def run(ctx):
                 '{definite, indefinite} x chunk in {0,1,2,3,7,1000}; plus systematic leaf boundaries (INTEGER two\'s-complement edges per octet count, REAL mantissa x exponent edges, OID arc digit boundaries, BIT STRING lengths 0..17, length-octet boundaries), plain and tagged; non-trivial = constructed or tagged type; distinct by (type, value, mode)')
     cases = codec.gen_cases(ctx, ctx.n(120, 2500), depth=3)
     cases += codec.leaf_boundary_cases(ctx, every=3 if ctx.tier == 'quick' else 1)
+    cases += codec.presence_grid_cases(ctx, every=2 if ctx.tier == 'quick' else 1)
     exprs, meta = [], []
     search_only = getattr(ctx, 'search_only', False)
     for c in cases:
